@@ -25,6 +25,7 @@ import tempfile
 import numpy as np
 
 from biom import Table, load_table
+from biom.parse import parse_biom_table
 from biom.cli.table_converter import _convert
 
 from . import tables
@@ -111,11 +112,13 @@ def run_rt(c):
             elif c['mode'] == 'cli':
                 text = cli_export(t, c, tmp)
             else:
-                text = t.to_tsv(header_key=o['hk'], header_value=o['hv'], metadata_formatter=FORMATTERS[fmt_name])
+                ocn = o.get('ocn', '#OTU ID')
+                text = t.to_tsv(header_key=o['hk'], header_value=o['hv'], metadata_formatter=FORMATTERS[fmt_name],
+                                observation_column_name=ocn)
                 if c.get('direct'):
                     buf = io.StringIO()
                     t.to_tsv(header_key=o['hk'], header_value=o['hv'], metadata_formatter=FORMATTERS[fmt_name],
-                             direct_io=buf)
+                             observation_column_name=ocn, direct_io=buf)
                     if buf.getvalue() != text + '\n':
                         return {'lines': ['direct_io output differs from the returned text'], 'back': None}
         except Exception as e:
@@ -125,7 +128,19 @@ def run_rt(c):
         try:
             mode = c['mode']
             if mode == 'lines':
-                t2 = Table.from_tsv(text.split('\n'), None, None, proc)
+                # the same list object is imported twice (second time through parse_biom_table when the
+                # identity is wanted): the import must not consume or change the caller's list
+                lst = text.split('\n')
+                try:
+                    t2 = Table.from_tsv(lst, None, None, proc)
+                finally:
+                    obs['list_unchanged'] = lst == text.split('\n')
+                first = snap_back(t2)
+                try:
+                    t3 = parse_biom_table(lst) if c['process'] == 'naive' else Table.from_tsv(lst, None, None, proc)
+                    obs['second_import_same'] = snap_back(t3) == first and lst == text.split('\n')
+                except Exception as e:
+                    obs['second_import_same'] = 'failed: %s' % type(e).__name__
             elif mode == 'handle':
                 t2 = Table.from_tsv(io.StringIO(text), None, None, proc)
             elif mode in ('path', 'gz'):
@@ -273,10 +288,18 @@ def cli_expected(c, omd):
 
 
 def run_text(c):
+    lst = list(c['lines'])
     try:
-        return {'back': snap_back(Table.from_tsv(list(c['lines']), None, None, PROCESSORS[c['process']]))}
+        first = {'back': snap_back(Table.from_tsv(lst, None, None, PROCESSORS[c['process']]))}
     except Exception as e:
-        return {'back': err(e)}
+        first = {'back': err(e)}
+    try:
+        again = {'back': snap_back(Table.from_tsv(lst, None, None, PROCESSORS[c['process']]))}
+    except Exception as e:
+        again = {'back': err(e)}
+    first['list_unchanged'] = lst == list(c['lines'])
+    first['second_import_same'] = again == {'back': first['back']}
+    return first
 
 
 def run_contract(c):
@@ -370,6 +393,7 @@ def book_for(c):
         cand += list(spec['oids']) + list(spec['sids'])
         if o['hv'] is not None:
             cand.append(o['hv'])
+        cand.append(o.get('ocn', '#OTU ID'))
         if o['hk'] and spec.get('omd'):
             for e in spec['omd']:
                 try:
@@ -413,7 +437,7 @@ def encode(c):
            [[b.of(v) for v in row] for row in spec['mat']],
            [] if omd is None else [[[[cps(k), md_tree(v)] for k, v in (e or {}).items()] for e in omd]]]
     ot = [[] if o['hk'] is None else [cps(o['hk'])], [] if o['hv'] is None else [cps(o['hv'])],
-          0 if o['fmt'] == 'sc_separated' else 1]
+          0 if o['fmt'] == 'sc_separated' else 1, cps(o.get('ocn', '#OTU ID'))]
     return [0, parse, fmt, tab, ot, 0 if c['process'] == 'naive' else 1, SPLITTER[c['mode']], KEEP[c['mode']]]
 
 
@@ -435,10 +459,15 @@ def decode(tree, c):
         return {'what': 'ws', 'spaces': True, 'linebreaks': True, 'universal': True}
     b, _, _ = book_for(c)
     if c['kind'] == 'text':
-        return {'back': dec_result(tree[0], lambda t: dec_table(t, b))}
+        # the model is a function of the lines: importing twice gives the same, the list is a value
+        return {'back': dec_result(tree[0], lambda t: dec_table(t, b)), 'list_unchanged': True, 'second_import_same': True}
     lines = dec_result(tree[0], lambda ls: [uncps(x) for x in ls])
     back = dec_result(tree[1], lambda t: dec_table(t, b))
     out = {'lines': lines, 'back': back}
+    if c['mode'] == 'lines' and isinstance(lines, list) and (not lines or lines[0] != 'err'):
+        out['list_unchanged'] = True
+        if isinstance(back, dict):
+            out['second_import_same'] = True
     if c['mode'] == 'cli' and isinstance(back, dict):
         # the options of the real command the Coq model does not know: reference values
         ttype, smd, omd = cli_expected(c, back['omd'])
@@ -467,6 +496,9 @@ def promised(c):
     if len(set(spec['oids'])) != len(spec['oids']) or len(set(spec['sids'])) != len(spec['sids']):
         return False
     if not all(math.isfinite(v) for row in spec['mat'] for v in row):
+        return False
+    ocn = o.get('ocn', '#OTU ID')
+    if '\t' in ocn or '\n' in ocn or '\r' in ocn:
         return False
     if o['hk'] is None and o['hv'] is None:
         return True
@@ -503,13 +535,24 @@ def oracle(c, obs):
         if c['what'] == 'num':
             return [] if obs['bad'] == 0 and obs['enough'] else ['number-text contract broken: %s' % obs]
         return [] if obs['spaces'] and obs['linebreaks'] and obs['universal'] else ['character classes differ: %s' % obs]
-    if c['kind'] == 'text' or not promised(c):
+    if c['kind'] == 'text':
+        fails = []
+        if obs.get('list_unchanged') is not True:
+            fails.append('Table.from_tsv changed the list of lines it was given')
+        if obs.get('second_import_same') is not True:
+            fails.append('a second import from the same list of lines gave something else: %r' % (obs.get('second_import_same'),))
+        return fails
+    if c['mode'] == 'lines' and isinstance(obs, dict) and obs.get('list_unchanged') is False:
+        return ['Table.from_tsv changed the list of lines it was given']
+    if not promised(c):
         return []
     spec, o = c['spec'], c['opts']
     fails = []
     back = obs['back']
     if not isinstance(back, dict):
         return ['a table of the domain did not come back from its own TSV text (%s via %s)' % (back, c['mode'])]
+    if c['mode'] == 'lines' and obs.get('second_import_same') is not True:
+        fails.append('a second import from the same list of lines gave something else: %r' % (obs.get('second_import_same'),))
     if back['oids'] != list(spec['oids']):
         fails.append('observation ids %r came back as %r' % (spec['oids'], back['oids']))
     if back['sids'] != list(spec['sids']):
@@ -556,7 +599,13 @@ def rand_values(rng, spec):
 
 
 def rand_tax(rng):
-    return [rng.choice(TAXA) for _ in range(rng.randint(1, 3))]
+    tax = [rng.choice(TAXA) for _ in range(rng.randint(1, 3))]
+    if rng.random() < 0.3:
+        # an empty level in the middle, at the end or at the start of the hierarchy
+        tax.insert(rng.choice([0, len(tax), rng.randint(0, len(tax))]), '')
+        if rng.random() < 0.2:
+            tax.append('')
+    return tax
 
 
 def gen_rt(rng, tier, promised_only=False):
@@ -603,6 +652,9 @@ def gen_rt(rng, tier, promised_only=False):
     zeros = [(i, j) for i, row in enumerate(spec['mat']) for j, v in enumerate(row) if v == 0]
     if zeros and rng.random() < 0.3:
         c['zero_at'] = list(rng.choice(zeros))
+    if mode in ('lines', 'handle', 'path', 'gz') and rng.random() < 0.35:
+        # observation_column_name: the corner cell of the header line (R / pandas write an empty one)
+        opts['ocn'] = rng.choice(['', '', ' ', 'Taxon', 'x y', '#', ' #x', 'OTU ID', '#NAME'])
     if mode in ('lines', 'handle') and rng.random() < 0.3:
         c['direct'] = True
     if c['mode'] not in ('lines', 'handle') and not promised(c):
@@ -735,6 +787,7 @@ def gen_cli(rng, tier, how):
     else:
         return c
     c.pop('direct', None)
+    c['opts'].pop('ocn', None)        # the command has no option for the corner cell
     c['mode'] = 'cli'
     o, spec = c['opts'], c['spec']
     strings = o['hk'] is None or o['fmt'] == 'naive'
@@ -745,8 +798,8 @@ def gen_cli(rng, tier, how):
     uniform = spec.get('omd') is None or len(set(tuple(sorted(e)) for e in spec['omd'])) == 1
     if uniform and (strings or o['hk'] == 'taxonomy') and rng.random() < 0.4:
         k['src'] = 'hdf5'
-        if o['hk'] == 'taxonomy' and any(set(e) != {'taxonomy'} for e in spec['omd']):
-            k['src'] = 'json'
+        if o['hk'] == 'taxonomy' and any(set(e) != {'taxonomy'} or '' in e['taxonomy'] for e in spec['omd']):
+            k['src'] = 'json'          # HDF5 pads ragged taxonomy with '' and drops the padding on load
     if strings and rng.random() < 0.6:
         k['back'] = 'hdf5'
     if rng.random() < 0.5 and (k['back'] == 'json' or all_plain_s):
@@ -811,6 +864,11 @@ def classify(c):
     if all(v == 0 for row in spec['mat'] for v in row):
         tags.append('shape:all-zero')
     tags.append('md:' + ('none' if c['opts']['hk'] is None else c['opts']['fmt']))
+    if 'ocn' in c['opts']:
+        tags.append('corner-cell:' + ('#' if c['opts']['ocn'].startswith('#') else 'no-#'))
+    if c['opts']['hk'] and c['opts']['fmt'] == 'sc_separated' and \
+            any(isinstance((e or {}).get(c['opts']['hk']), list) and '' in e[c['opts']['hk']] for e in spec.get('omd') or []):
+        tags.append('md:empty-level')
     if any(ord(ch) > 127 for i in spec['oids'] + spec['sids'] for ch in i):
         tags.append('ids:non-ascii')
     try:
